@@ -15,6 +15,7 @@ RELATED = {  # checks worth running besides the seed's own property
     'C09': [], 'C10': [], 'C11': ['C12'], 'C12': ['C11'], 'C13': ['C15'], 'C14': [], 'C15': [], 'C16': ['C03'],
     'C17': [], 'C18': [], 'C19': [], 'C20': [],
 }
+RELATED.update({'C01': ['C06'], 'C09': ['C10']})
 
 
 def run_checks(wt, out, ids):
@@ -34,12 +35,15 @@ def main():
     items = []
     for d in sorted(os.listdir(os.path.join(ROOT, 'seeded'))):
         pd = os.path.join(ROOT, 'seeded', d, 'patch.diff')
-        if os.path.exists(pd) and (not args or d in args):
+        if os.path.exists(pd) and (not args or d in args or 'seeds' in args):
             items.append(('seed:' + d, d[:3], pd))
     mdir = os.path.join(ROOT, 'selftest', 'mutants')
     for f in sorted(os.listdir(mdir)):
-        if f.endswith('.patch') and (not args or f.split('_')[0] in args):
-            prop = {'M01b': 'C01', 'M06': 'C02', 'M17a': 'C12', 'M19': 'C15'}.get(f.split('_')[0], 'C01')
+        if f.endswith('.patch') and (not args or f.split('_')[0] in args or 'mutants' in args):
+            prop = {'M01b': 'C01', 'M02': 'C01', 'M03': 'C01', 'M04': 'C01', 'M05': 'C01', 'M06': 'C02', 'M07': 'C02', 'M08': 'C03',
+                    'M10': 'C04', 'M11': 'C05', 'M12': 'C06', 'M14a': 'C08', 'M14b': 'C08', 'M14c': 'C08', 'M15': 'C09', 'M16': 'C10',
+                    'M17a': 'C12', 'M17b': 'C11', 'M18': 'C13', 'M19': 'C15', 'M20': 'C16', 'M21': 'C17', 'M23': 'C19', 'M24': 'C20',
+                    'M25': 'C08'}.get(f.split('_')[0], 'C01')
             items.append(('mutant:' + f[:-6], prop, os.path.join(mdir, f)))
     base = tempfile.mkdtemp(prefix='matrix-', dir='/tmp')
     rows = []
@@ -68,7 +72,8 @@ def main():
                 subprocess.call(['git', '-C', '/repo', 'worktree', 'remove', '--force', wt])
     finally:
         shutil.rmtree(base, ignore_errors=True)
-    with open(os.path.join(ROOT, 'selftest', 'RESULTS.md'), 'w') as f:
+    resname = next((a.split('=', 1)[1] for a in sys.argv[1:] if a.startswith('--out=')), 'RESULTS.md')
+    with open(os.path.join(ROOT, 'selftest', resname), 'w') as f:
         f.write('# Seeded changes and catalogue mutants vs. the checks (quick tier)\n\n')
         f.write('Each change is applied to a scratch worktree of /repo HEAD; a check "catches" it when it prints VIOLATION lines.\n\n')
         f.write('| change | property | caught by | not caught by | first violation |\n|---|---|---|---|---|\n')
